@@ -1033,6 +1033,15 @@ func corpus() []Job {
 			Threads: [][]string{{"removeall " + h("/v/a")}, {"stat " + h("/v/a/..data/f"), "stat " + h("/v/a/..2026")}}},
 		{Setup: []string{"mkdirall " + h("/d/..data") + " 493", "create " + h("/d/..data/f")},
 			Threads: [][]string{{"rename " + h("/d") + " " + h("/e")}, {"stat " + h("/e/..data/f"), "stat " + h("/d/..data/f")}}},
+		// one call, one effect, whatever the payload size: two large WriteString / Write calls at the same offset and a reader
+		{Setup: []string{"create " + h("/a")}, Threads: [][]string{
+			{"openfile " + h("/a") + " 2 420", "h.writestring 0 " + strings.Repeat("41", 9000)},
+			{"openfile " + h("/a") + " 2 420", "h.writestring 0 " + strings.Repeat("42", 9000)},
+			{"openfile " + h("/a") + " 0 420", "h.readat 0 8 4092", "h.readat 0 8 8188"}}},
+		{Setup: []string{"create " + h("/a")}, Threads: [][]string{
+			{"openfile " + h("/a") + " 2 420", "h.write 0 " + strings.Repeat("41", 70000)},
+			{"openfile " + h("/a") + " 2 420", "h.writeat 0 " + strings.Repeat("42", 70000) + " 0"},
+			{"openfile " + h("/a") + " 0 420", "h.readat 0 8 32764", "h.readat 0 8 65532"}}},
 		// a metadata call racing with a rename of its target and a Stat of the new name
 		{Setup: []string{"create " + h("/a")}, Threads: [][]string{{"chmod " + h("/a") + " 384"}, {"rename " + h("/a") + " " + h("/b"), "statperm " + h("/b")}}},
 		{Setup: []string{"create " + h("/a")}, Threads: [][]string{{"chtimes " + h("/a") + " 5"}, {"remove " + h("/a"), "create " + h("/a"), "stat " + h("/a")}}},
